@@ -107,6 +107,28 @@ CHECKS = {
             "independent formula away from exactly known great circles is residue.",
             "TLA+ integer model checked by TLC + TLC trace validation of the real formatter/parser/geometry calls",
             "4/C17"),
+    "C11": ("model_checking",
+            "Islands.tla states the filter rule Keep(C, In) = the island has a pixel whose centre is inside; TLC proves FilterThm (wholly inside "
+            "kept, wholly outside dropped, whole-image region changes nothing) on every grid x membership pattern of the bounded domain. Every "
+            "grid (3x3, 2x4 / 3x4 over below/between/above) x pattern (all, none, single pixel, complement, checkerboard, row>=k, col>=k) and "
+            "special elongated / L-shaped / straddling islands are realised on the real code with a 1.5 deg/pixel WCS and a real depth-10 Region "
+            "built from the HEALPix pixels containing the chosen pixel centres; find_islands(region=, wcs=) is validated by TLC (Islands_Trace). "
+            "End-to-end: pairs of find_sources_in_image runs with/without mask= on synthetic multi-island images (SIN/TAN/ZEA, circles at depth 12) "
+            "are validated by TLC (FinderRegion_Trace): the restricted catalogue is exactly the float-identical rows of the kept islands.",
+            "membership semantics of Region.sky_within are pinned by C08/C09; astropy WCS (origin-0 index = FITS 1-based pixel) is the position oracle.",
+            "TLA+ theorems checked by TLC on bounded-exhaustive grids x membership patterns + TLC trace validation of find_islands(region) and of with/without-region run pairs",
+            "4/C11"),
+    "C16": ("exploration",
+            "WcsRel.tla states the relations (pixel round trip 1e-6 px, FITS-standard mapping for 1-based (row, col), vector/ellipse round trips "
+            "1e-3 / 0.01 deg, great-circle lengths, East-of-North handedness facts) over fixed-point records; MC_WcsConfig lets TLC enumerate the "
+            "6750-element configuration lattice (projection x reference class x pixel scale x ellipse size x axis ratio x PA class) and check "
+            "lemmas that the facts discriminate wrong conventions; the harness instantiates every element with seeded continuous parameters "
+            "plus seeded off-lattice configurations on the real WCSHelper and TLC (Wcs_Trace) validates every record. Sampling strength in "
+            "the continuous dimensions.",
+            "astropy.wcs / angular_separation / position_angle trusted as the standard; |dec| <= 88 for query points; no rotation/SIP; one known "
+            "finding (minor axis of large ellipses outside the locally-linear regime).",
+            "TLC-enumerated configuration lattice + relational trace validation by TLC on fixed-point projections of real WCSHelper calls",
+            "4/C16"),
 }
 
 NOT_YET = "check not built yet in this round of construction (planned, see DESIGN.md section 4)"
